@@ -106,6 +106,11 @@ def render_stmt(s, mid, idx):
     if k == "use":
         line = "print(%r, %s())\n" % ("M:" + mid, rpath(s["e"]))
         if s["fn"]:
+            # the reference sits in a function body that is called on the spot; at even statement
+            # positions it is, in addition, only the base of an attribute access through a subscript
+            # (a name used inside a larger expression, not as the head of a plain dotted name)
+            if idx % 2 == 0:
+                line = "print(%r, (%s,)[0].__call__())\n" % ("M:" + mid, rpath(s["e"]))
             return "def _u%d():\n    %s_u%d()\n" % (idx, line, idx)
         return line
     raise ValueError(s)
